@@ -27,11 +27,15 @@
    flush WITH a re-keying pass ([olds] <> []) the real tree is known NOT to meet
    the conclusion in about 2 flushes of 10 000 (hence at least one premise is
    false for it there).  What suite "settle" demands of the code is the case
-   [olds = []] ([C15_grouping_settled_no_rekeying_with]); and it observes only
-   the number of leading inserts and a counter of unsettled look-ups:
-   [flush_tree], [normalize_pass] and [settled] are NOT evaluated by any suite
-   (only [pre_normalised], through [expected_pre]).  The sentence below that
-   the oracles of Model.v "stand for" this look-up is prose, not a lemma.
+   [olds = []] ([C15_grouping_settled_no_rekeying_with]).  Since Extension 3
+   (SettleCalls.v, [run_settle_calls]) the suite evaluates [flush_tree],
+   [normalize_pass] and [settled] for every flush in which the tree reported no
+   convergence: over the tree whose look-up is the recorded end-of-flush
+   oracle, against the tree calls the real code made, one by one.  [run_settle]
+   at the end of this file (numbers only: leading inserts, a counter of
+   unsettled look-ups) is kept; its demands are part of [run_settle_calls].
+   The sentence below that the oracles of Model.v "stand for" this look-up is
+   prose, not a lemma.
    Because of the first step the grouping pass works on a tree that already
    holds every URL of the batch, so it does not move while it groups: every
    record of a flush is filed under the key the tree gives its URL at the END of
